@@ -45,9 +45,16 @@ func (c Coverage2) Index(gi GlyphID) (int, bool) {
 }
 
 func (cr Coverage2) Len() int {
+	// 1 + the maximum index [Index] may return: StartCoverageIndex comes from the
+	// font file and is not required to be consistent with the sizes of the previous ranges
 	size := 0
 	for _, r := range cr.Ranges {
-		size += int(r.EndGlyphID - r.StartGlyphID + 1)
+		if r.EndGlyphID < r.StartGlyphID { // never matched by [Index]
+			continue
+		}
+		if s := int(r.StartCoverageIndex) + int(r.EndGlyphID-r.StartGlyphID) + 1; s > size {
+			size = s
+		}
 	}
 	return size
 }
